@@ -288,10 +288,11 @@ def scan(repo=None):
 def pony_needs_fn(tbl):
     """Python mirror of the generated Coq `pony_needs`."""
     def needs(p, i, c):
-        if i == 0 and tbl.get('receiver', {}).get(p) and tbl['own'][c] > tbl['receiver_threshold']: return True
-        t = tbl['threshold'][p]
+        own = tbl['own'].get(c, tbl['default'])
+        if i == 0 and tbl.get('receiver', {}).get(p) and own > tbl['receiver_threshold']: return True
+        t = tbl['threshold'].get(p)
         if t is None: return False
-        return tbl['own'][c] >= t if tbl['cmp'] == '>=' else tbl['own'][c] > t
+        return own >= t if tbl['cmp'] == '>=' else own > t
     return needs
 
 
@@ -302,10 +303,10 @@ def generate():
          'From Coq Require Import Arith Bool.', 'Require Import PonyV.Model.C04Expr.', '',
          '(* value of getattr(node, "priority", %d) once the node has been printed *)' % tbl['default'],
          'Definition own_priority (k : kind) : nat :=', '  match k with']
-    for k in KINDS: L.append('  | K%s => %d' % (k, tbl['own'][k]))
+    for k in KINDS: L.append('  | K%s => %d' % (k, tbl['own'].get(k, tbl['default'])))      # (KOther: not printed by the model)
     L += ['  end.', '', '(* k of the @priority(k) decorator of the method printing this kind; None: no decorator, children are never parenthesised *)',
           'Definition wrap_threshold (k : kind) : option nat :=', '  match k with']
-    for k in KINDS: L.append('  | K%s => %s' % (k, 'None' if tbl['threshold'][k] is None else 'Some %d' % tbl['threshold'][k]))
+    for k in KINDS: L.append('  | K%s => %s' % (k, 'None' if tbl['threshold'].get(k) is None else 'Some %d' % tbl['threshold'][k]))
     L += ['  end.', '', '(* `if getattr(child, "priority", %d) %s p: child.src = "(%%s)" %% child.src`, for every child alike *)' % (tbl['default'], tbl['cmp']),
           'Definition wraps (child_priority p : nat) : bool := %s.' % ('p <=? child_priority' if tbl['cmp'] == '>=' else 'p <? child_priority'), '',
           '(* postAttribute / postCall / postSubscript print their object through receiver_src: parenthesised when its priority is > %d *)' % tbl['receiver_threshold'],
@@ -325,7 +326,7 @@ def generate():
           'Definition pony_bare_formatted_is_operand : bool := %s.' % ('true' if tbl['bare_formatted_is_operand'] else 'false'), '',
           '(* false: the method reads a field the node does not have (AttributeError), the kind cannot be printed at all *)',
           'Definition pony_kind_ok (k : kind) : bool :=', '  match k with']
-    bad = [k for k in KINDS if not tbl['kind_ok'][k]]
+    bad = [k for k in KINDS if not tbl['kind_ok'].get(k, True)]
     for k in bad: L.append('  | K%s => false' % k)
     L += ['  | _ => true' if len(bad) < len(KINDS) else '', '  end.', '',
           'Definition pony_style : style := {| needs := pony_needs; keep_spec := pony_keep_spec; short_idx := pony_short_idx |}.', '']
